@@ -27,6 +27,10 @@ Missing(t) == {<<k, T>> \in (1..Len(t.tags)) \X (PosTags \cap AllFeatureTags(t))
                  /\ t.tags[k].tag # "DFLT"
                  /\ ActsOn(t, T, t.tags[k].script)
                  /\ MissingIn(t, k, T) # {}}
+\* all language systems of one script expose the same generated positioning features (kerning included)
+GenTags == PosTags \cup {"kern", "dist"}
+LangsAgree(t) == \A k \in 1..Len(t.tags) : \A l1, l2 \in Languages(t.F, t.tags[k].tag) :
+                    FeatureTags(t.F, t.tags[k].tag, l1) \cap GenTags = FeatureTags(t.F, t.tags[k].tag, l2) \cap GenTags
 \* Known finding F-C20-1: the script is not named by a languagesystem statement although the font EXPORTS a glyph with a
 \* code point that belongs to that script alone (that is how the kern writer legitimately learns about the script)
 Known(t, x) == /\ t.tags[x[1]].tag \notin Rng(t.declared)
@@ -34,7 +38,8 @@ Known(t, x) == /\ t.tags[x[1]].tag \notin Rng(t.declared)
 Init == i = 1
 Next == /\ i <= Len(Traces)
         /\ LET t == Traces[i]  bad == {x \in Missing(t) : ~Known(t, x)}  kn == {x \in Missing(t) : Known(t, x)}
-           IN PrintT(<<"VERDICT", t.tid, IF bad = {} THEN "none" ELSE "positioning-reachable-where-kerning-is", "none",
+           IN PrintT(<<"VERDICT", t.tid, IF bad # {} THEN "positioning-reachable-where-kerning-is"
+                                        ELSE IF ~LangsAgree(t) THEN "language-systems-of-a-script-agree" ELSE "none", "none",
                        Cardinality(kn), ToString(bad)>>)
         /\ i' = i + 1
 Spec == Init /\ [][Next]_i
